@@ -95,7 +95,7 @@ theorem newEnt_OwnerInv (s : State) (k h seed : Nat) (r : Option Str) (hi : DocI
     · rename_i hf
       have hfr := freshOk_one hf
       have hnew : h ∉ hs s := fun hm => by have := hi.1.2 h hm; omega
-      exact ho.append_new hi k ⟨h, true, some k, true, r⟩ (by rw [hs']) (by rw [hs']) hnew rfl rfl
+      exact ho.append_new hi k ⟨h, true, some k, true, r, isPaperBr s k⟩ (by rw [hs']) (by rw [hs']) hnew rfl rfl
     · rw [hs']; exact ho
 
 theorem unlinkCore_OwnerInv {s s' : State} {k e : Nat} (h : unlinkCore s k e = some s')
@@ -110,7 +110,7 @@ theorem unlinkCore_OwnerInv {s s' : State} {k e : Nat} (h : unlinkCore s k e = s
     · cases h
     · split at h
       · have hS : s'.spaces = setSpace s.spaces k (·.erase e) := by cases h; rfl
-        have hE : s'.ents = setEnt s.ents e (fun x => { x with owner := none }) := by cases h; rfl
+        have hE : s'.ents = setEnt s.ents e (fun x => { x with owner := none, psp := false }) := by cases h; rfl
         have hnot := hrm ha
         intro p hp x hx
         have hp' := hp
@@ -142,7 +142,7 @@ theorem addExisting_OwnerInv (s : State) (k e : Nat) (ho : OwnerInv s) (hok : e 
     · split at hs'
       · rw [hs']; exact ho
       · have hS : s'.spaces = setSpace s.spaces k (· ++ [e]) := by rw [hs']
-        have hE : s'.ents = setEnt s.ents e (fun x => { x with owner := some k }) := by rw [hs']
+        have hE : s'.ents = setEnt s.ents e (fun x => { x with owner := some k, psp := isPaperBr s k }) := by rw [hs']
         intro p hp y hy
         rw [hS] at hp
         obtain ⟨q, hq, hk, hcase⟩ := mem_setSpace hp
@@ -163,7 +163,7 @@ theorem addExisting_OwnerInv (s : State) (k e : Nat) (ho : OwnerInv s) (hok : e 
           rcases hy with hy | rfl
           · rw [hk]; exact old y hy
           · simp only [keepInSpace, isAlive, ownerOf, findEnt, hE]
-            have hfe := findEnt_setEnt_eq s.ents y (fun x => { x with owner := some k }) (fun _ => rfl)
+            have hfe := findEnt_setEnt_eq s.ents y (fun x => { x with owner := some k, psp := isPaperBr s k }) (fun _ => rfl)
             unfold findEnt at hx
             rw [hfe, hx, hk, hqk]; simp
   · rw [hs']; exact ho
@@ -364,6 +364,7 @@ theorem step_OwnerInv (s : State) (op : Op) (hi : DocInv s) (ho : OwnerInv s) (h
         · exact hk
         · left; rfl
     · rw [hs']; exact ho
+  | foreign kind e => simp only [step]; split <;> exact ho
 
 /-- ownership consistency in every reachable state -/
 theorem owner_inv_reachable (s : State) (ops : List Op) (h : DocInv s) (ho : OwnerInv s) (hok : HistOk s ops) :
